@@ -9,7 +9,7 @@ from core import Case, CheckBroken
 
 PID = "C01"
 LEAN_MODULES = ["KrroodVerif.Props.C01", "KrroodVerif.Props.C01Union", "KrroodVerif.Props.C01Typed",
-                "KrroodVerif.Props.C01Quant", "KrroodVerif.Props.C01IR", "KrroodVerif.Props.C01IROr"]
+                "KrroodVerif.Props.C01Quant", "KrroodVerif.Props.C01IR", "KrroodVerif.Props.C01IROr", "KrroodVerif.Props.C01IRVar"]
 THEOREMS = [
     "KrroodVerif.Eql.C01_cover",
     "KrroodVerif.Eql.C01_sound_complete_partial",
@@ -82,6 +82,10 @@ THEOREMS = [
     "KrroodVerif.Eql.IR.C01_runIRTerm_var_operand",
     "KrroodVerif.Eql.IR.C01_runIRTerm_lit_operand",
     "KrroodVerif.Eql.IR.C01_runIR_eq_eval_frag_partial",
+    "KrroodVerif.Eql.IR.runNode_keyC",
+    "KrroodVerif.Eql.IR.C01_runIRTerm_var_cond",
+    "KrroodVerif.Eql.IR.C01_runIRTerm_lit_cond",
+    "KrroodVerif.Eql.IR.C01_runIR_eq_eval_frag2_partial",
 ]
 # second tie (translator): the table of construction-time rewrites regenerated from the current source equals the one
 # `build` transcribes and is admissible — the same two obligations as C02 (harness/translate/c02_translate.py)
